@@ -887,8 +887,16 @@ func (s *State) evalIdentifier(node *ast.Identifier) object.Object {
 	return val
 }
 
+// unref returns what a reference (variable of an enclosing scope) points to, anything else as is.
+func unref(o object.Object) object.Object {
+	if r, ok := o.(object.Reference); ok {
+		return r.ObjValue()
+	}
+	return o
+}
+
 func (s *State) evalIfExpression(ie *ast.IfExpression) object.Object {
-	condition := s.evalInternal(ie.Condition)
+	condition := unref(s.evalInternal(ie.Condition))
 	switch condition {
 	case object.TRUE:
 		if log.LogVerbose() {
@@ -1019,12 +1027,12 @@ func (s *State) evalForSpecialForms(fe *ast.ForExpression) (object.Object, bool)
 	}
 	name := ie.Left.Value().Literal()
 	if ie.Right.Value().Type() == token.COLON {
-		start := s.evalInternal(ie.Right.(*ast.InfixExpression).Left)
+		start := unref(s.evalInternal(ie.Right.(*ast.InfixExpression).Left))
 		startInt, ok := Int64Value(start)
 		if !ok {
 			return s.NewError("for var = n:m n not an integer: " + start.Inspect()), true
 		}
-		end := s.evalInternal(ie.Right.(*ast.InfixExpression).Right)
+		end := unref(s.evalInternal(ie.Right.(*ast.InfixExpression).Right))
 		endInt, ok := Int64Value(end)
 		if !ok {
 			return s.NewError("for var = n:m m not an integer: " + end.Inspect()), true
@@ -1032,7 +1040,7 @@ func (s *State) evalForSpecialForms(fe *ast.ForExpression) (object.Object, bool)
 		return s.evalForInteger(fe, &startInt, endInt, name), true
 	}
 	// Evaluate:
-	v := s.evalInternal(ie.Right)
+	v := unref(s.evalInternal(ie.Right))
 	switch v.Type() {
 	case object.REGISTER:
 		return s.evalForInteger(fe, nil, v.(*object.Register).Int64(), name), true
@@ -1090,7 +1098,7 @@ func (s *State) evalForExpression(fe *ast.ForExpression) object.Object {
 	var lastEval object.Object
 	lastEval = object.NULL
 	for {
-		condition := s.evalInternal(fe.Condition)
+		condition := unref(s.evalInternal(fe.Condition))
 		switch condition {
 		case object.TRUE:
 			if log.LogVerbose() {
